@@ -54,6 +54,7 @@ def ob_accept_loop(report):
         def m_new(ex, p, call, k):
             p.events.append(Event('stream-handler', 'BiStreamRequestHandler::new', tuple(call.args)))
             k(p, Sym(f'bi_handler{p.seq("bh")}', 'BiStreamRequestHandler'))
+        e2.require_methods(mirdump.program('anemo')[0], ('BiStreamRequestHandler', 'new'))
         ex, fn, res = handler.run_handler_start(unroll=2, extra=[(r'JoinSet::spawn$', m_spawn), (r'BiStreamRequestHandler::new$', m_new)])
         # the select! output: name of the symbolic Out value
         seen = set()
